@@ -168,6 +168,8 @@ func siteShape(in ssa.Instruction) string {
 		return shapeOf(x, 0)
 	case *ssa.Call:
 		return shapeOf(x, 0)
+	case *ssa.Convert:
+		return types.TypeString(x.Type(), func(*types.Package) string { return "" }) + "(" + shapeOf(x.X, 0) + ")"
 	}
 	return in.String()
 }
